@@ -482,6 +482,20 @@ def fam_bound(tier, rng):
             ops.append("visit witness n " + hx(cs(1) + cs(l) + body))
         if l % 3 == 0:
             ops.append("redb txout " + hx(struct.pack("<Q", l) + cs(l) + body))
+    # sizes at which Bitcoin's *other* rules change (520-byte pushes, 10,000-byte scripts, 100,000-byte standard
+    # transactions): none of them is a parsing rule, so nothing may change there
+    for l in (520, 521, 9999, 10000, 10001, 100000, 100001):
+        body = bytes((i * 3 + l) % 256 for i in range(l))
+        outs = cs(3) + struct.pack("<Q", 1) + cs(1) + b"\x51" + struct.pack("<Q", l) + cs(l) + body + struct.pack("<Q", 3) + cs(0)
+        ops.append("visit txouts n " + hx(outs))
+        ops.append("redb txouts " + hx(outs))
+        ops.append("visit txout n " + hx(struct.pack("<Q", l) + cs(l) + body))
+        ops.append("visit txin n " + hx(pat.take(32) + struct.pack("<I", 1) + cs(l) + body + struct.pack("<I", 2)))
+        t = Tx(2, [(pat.take(32), 7, body, 0xFFFFFFFE)], [(5, body), (6, b"\x52")], [[body, b"\x01"]], l, True)
+        ops.append("visit tx n " + hx(t.enc()))
+        if l in (521, 10001):
+            ops.append("redb tx " + hx(t.enc()))
+            ops.append("visit witness n " + hx(cs(2) + cs(l) + body + cs(1) + b"\x07"))
     # one big element alone / last (a decoder that loses track of its offset at a wide length prefix can still succeed)
     for l in (253, 65536):
         body = bytes((i * 29 + 1) % 256 for i in range(l))
